@@ -332,4 +332,8 @@ def run(tier, seed, replay=None):
         "generator_intents": dict(intents), "regimes": dict(regimes),
         "model_impl_first_difference": c.diff, "oracle_complaints": len(c.oracle),
     })
+    # second stage: the same property under scheduled completions of background jobs (a tagging job of an
+    # earlier incarnation of a tag may still be in flight while the tag API is used)
+    import mgrfam
+    mgrfam.stage(rep, PROP, tier, seed)
     return rep.finish()
